@@ -34,7 +34,7 @@ Fresh(run) == [c |-> run,
                saved |-> [k \in 1..run.nkeys |-> [kept |-> FALSE, since |-> 0, last |-> -1]],  \* what a stop replaced
                last |-> [k \in 1..run.nkeys |-> -1],          \* instant of the last complete advertisement
                batchTs |-> -1, batch |-> [k \in 1..run.nkeys |-> {}], failed |-> {},
-               routed |-> {}, nofresh |-> 0, gaveup |-> FALSE,   \* the closest-peers lookups of the current instant
+               gaveup |-> {},   \* keys under a prefix whose exploration the library ended early in the current instant
                online |-> TRUE, onlineSince |-> 0, restartAt |-> -1,
                disturbed |-> FALSE,     \* an outage or a restart has happened in this run
                failing |-> FALSE, healSince |-> 0,   \* provider records cannot be delivered / when that ended
@@ -47,17 +47,21 @@ Step(ns) == /\ s' = ns /\ l' = l + 1
 \* the advertisements of the instant that has just ended are judged: each went to exactly the r nearest
 \* peers (keys whose sends failed because the node or a peer was unreachable are not judged)
 Judged(st) == {k \in 1..st.c.nkeys : st.batch[k] # {} /\ k \notin st.failed}
+\* the keys advertised in that instant: the records that arrived went to exactly the r nearest peers (an attempt
+\* that failed and one that succeeded may fall into the same instant: the delivered one counts)
+\* (in an instant in which the exploration gave up the recipients are reported under the known finding)
+Done(st) == {k \in 1..st.c.nkeys : st.batch[k] # {} /\ (st.batch[k] = Range(st.nearest[k]) \/ k \in st.gaveup)}
 CloseBatch(st) ==
   [st EXCEPT !.batchTs = -1, !.batch = [k \in 1..st.c.nkeys |-> {}], !.failed = {},
-             !.routed = {}, !.nofresh = 0, !.gaveup = FALSE,
-             !.last = [k \in 1..st.c.nkeys |-> IF k \in Judged(st) /\ (st.batch[k] = Range(st.nearest[k]) \/ st.gaveup) THEN st.batchTs ELSE @[k]],
-             !.once = @ \ {k \in Judged(st) : st.batch[k] = Range(st.nearest[k]) \/ st.gaveup},
-             \* recipients that are wrong in an instant in which the exploration saw two closest-peers lookups in a
-             \* row without a new peer are reported separately: the library stops exploring a prefix there
-             !.viol = @ \cup (IF st.gaveup
-                              THEN Flag(\A k \in Judged(st) : st.batch[k] = Range(st.nearest[k]), "a_wrong_recipients_after_two_lookups_without_new_peers")
-                              ELSE Flag(\A k \in Judged(st) : st.batch[k] \subseteq Range(st.nearest[k]), "a_advertised_to_a_peer_that_is_not_among_the_r_nearest")
-                                   \cup Flag(\A k \in Judged(st) : Range(st.nearest[k]) \subseteq st.batch[k], "a_not_advertised_to_all_r_nearest_peers"))]
+             !.gaveup = {},
+             !.last = [k \in 1..st.c.nkeys |-> IF k \in Done(st) THEN st.batchTs ELSE @[k]],
+             !.once = @ \ Done(st),
+             \* The library ends the exploration of a prefix after two closest-peers lookups in a row without a new
+             \* peer (it says so through the verif hook, with the prefix); wrong recipients of the keys under such a
+             \* prefix in that instant are reported separately (known finding).
+             !.viol = @ \cup Flag(\A k \in Judged(st) \cap st.gaveup : st.batch[k] = Range(st.nearest[k]), "a_wrong_recipients_after_two_lookups_without_new_peers")
+                        \cup Flag(\A k \in Judged(st) \ st.gaveup : st.batch[k] \subseteq Range(st.nearest[k]), "a_advertised_to_a_peer_that_is_not_among_the_r_nearest")
+                        \cup Flag(\A k \in Judged(st) \ st.gaveup : Range(st.nearest[k]) \subseteq st.batch[k], "a_not_advertised_to_all_r_nearest_peers")]
 \* the state to continue from when an event at instant ts arrives
 At(ts) == IF s.batchTs # -1 /\ s.batchTs # ts THEN CloseBatch(s) ELSE s
 \* events logged at quiescent points end the current instant's advertisements
@@ -73,11 +77,9 @@ Send ==
                    \cup Flag((Ev.k \in 1..st.c.nkeys /\ st.stopped[Ev.k] # -1) => Ev.ts <= st.stopped[Ev.k] + st.c.interval + st.c.maxdelay,
                              "c_stopped_key_advertised_in_a_later_cycle")])
 \* a closest-peers lookup answered by the router
-Route == /\ Is("Route")
-         /\ LET st == At(Ev.ts)
-                fresh == Range(Ev.peers) \ st.routed
-                nf == IF fresh = {} THEN st.nofresh + 1 ELSE 0 IN
-            Step([st EXCEPT !.batchTs = Ev.ts, !.routed = @ \cup Range(Ev.peers), !.nofresh = nf, !.gaveup = @ \/ nf >= 2])
+Route == /\ Is("Route") /\ LET st == At(Ev.ts) IN Step([st EXCEPT !.batchTs = Ev.ts])
+\* the library ended the exploration of a prefix early (hook point explore:gaveup); keys: the keys under it
+GaveUp == /\ Is("GaveUp") /\ LET st == At(Ev.ts) IN Step([st EXCEPT !.batchTs = Ev.ts, !.gaveup = @ \cup Range(Ev.keys)])
 SendFail == /\ Is("SendFail") /\ LET st == At(Ev.ts) IN Step([st EXCEPT !.batchTs = Ev.ts, !.failed = @ \cup {Ev.k}])
 
 \* Behind the buffered wrapper a start that follows a stop of the same key in the same batch cancels the stop
@@ -142,7 +144,7 @@ OpResult == Is("OpResult") /\ LET st == At(Ev.ts) IN Step(st)
 EndEv == Is("End") /\ Step(CloseBatch(s))
 Stuck == Is("Stuck") /\ Step([s EXCEPT !.viol = @ \cup {<<"C17", "x_wedged_or_crashed">>}])
 
-Next == Send \/ Route \/ FailSend \/ HealSend \/ SendFail \/ Start \/ Once \/ Stop \/ Swarm \/ Offline \/ Online \/ Restart \/ Settle \/ OpResult \/ EndEv \/ Stuck
+Next == Send \/ Route \/ GaveUp \/ FailSend \/ HealSend \/ SendFail \/ Start \/ Once \/ Stop \/ Swarm \/ Offline \/ Online \/ Restart \/ Settle \/ OpResult \/ EndEv \/ Stuck
 TraceSpec == Init /\ [][Next]_vars
 TraceAccepted == TLCGet("distinct") = NLines
 InvC17 == s.viol = {}
